@@ -130,11 +130,13 @@ func (idx *index) update(ctx context.Context, p pointer, persist bool) error {
 	overlapsWithNext := updateAt != len(ptrs)-1 && ptrs[updateAt+1].OverlapsWith(p.TimeRange)
 	overlapsWithPrev := updateAt != 0 && ptrs[updateAt-1].OverlapsWith(p.TimeRange)
 	if overlapsWithPrev {
+		conflict := ptrs[updateAt-1].TimeRange
 		idx.mu.Unlock()
-		return span.Error(NewRangeWriteConflictError(p.TimeRange, ptrs[updateAt-1].TimeRange))
+		return span.Error(NewRangeWriteConflictError(p.TimeRange, conflict))
 	} else if overlapsWithNext {
+		conflict := ptrs[updateAt+1].TimeRange
 		idx.mu.Unlock()
-		return span.Error(NewRangeWriteConflictError(p.TimeRange, ptrs[updateAt+1].TimeRange))
+		return span.Error(NewRangeWriteConflictError(p.TimeRange, conflict))
 	} else {
 		sizeDelta := int64(p.size) - int64(oldP.size)
 		idx.mu.pointers[updateAt] = p
